@@ -10,14 +10,14 @@ VERIF = os.path.dirname(os.path.dirname(os.path.abspath(__file__)))
 
 
 import sys
-ROUND2 = len(sys.argv) > 1 and sys.argv[1] in ('r2', 'r3', 'r4')
+ROUND2 = len(sys.argv) > 1 and sys.argv[1] in ('r2', 'r3', 'r4', 'r5')
 TAG = sys.argv[1] if len(sys.argv) > 1 else ''
 
 
 def newest_results():
     res = {}
     if ROUND2:
-        for d in (('/tmp/mutres_r2', '/tmp/mutres_r2b', '/tmp/mutres_r2c') if TAG == 'r2' else ('/tmp/mutres_r3', '/tmp/mutres_r3b') if TAG == 'r3' else ('/tmp/mutres_r4', '/tmp/mutres_r4b', '/tmp/mutres_r4c')):
+        for d in (('/tmp/mutres_r2', '/tmp/mutres_r2b', '/tmp/mutres_r2c') if TAG == 'r2' else ('/tmp/mutres_r3', '/tmp/mutres_r3b') if TAG == 'r3' else ('/tmp/mutres_r4', '/tmp/mutres_r4b', '/tmp/mutres_r4c') if TAG == 'r4' else ('/tmp/mutres_r5', '/tmp/mutres_r5b', '/tmp/mutres_r5c')):
             for f in sorted(glob.glob(d + '/*.json'), key=os.path.getmtime):
                 r = json.load(open(f))
                 e = res.setdefault((r['prop'], str(r['n'])), {})
@@ -41,7 +41,7 @@ def main():
     for (prop, n), rr in sorted(res.items()):
         r = rr.get('latest') or rr.get('base')
         base = rr.get('base') or r
-        out = (('/tmp/mut2_%s_out' if TAG == 'r2' else '/tmp/mut3_%s_out' if TAG == 'r3' else '/tmp/mut4_%s_out') if ROUND2 else '/tmp/mut_%s_out') % prop
+        out = (('/tmp/mut2_%s_out' if TAG == 'r2' else '/tmp/mut3_%s_out' if TAG == 'r3' else '/tmp/mut4_%s_out' if TAG == 'r4' else '/tmp/mut5_%s_out') if ROUND2 else '/tmp/mut_%s_out') % prop
         if r.get('apply', 'ok') != 'ok' or 'passed' not in r.get('tests', '') or r.get('demo_mutant_rc') != 1 or r.get('demo_clean_rc') != 0:
             continue        # not confirmed: keep nothing
         d = os.path.join(VERIF, 'seeded', ('%s-' + TAG + '-%s' if ROUND2 else '%s-%s') % (prop, n))
@@ -50,6 +50,8 @@ def main():
         shutil.copy(os.path.join(out, 'demo%s.py' % n), os.path.join(d, 'demo.py'))
         note = ''
         np = os.path.join(out, 'note%s.txt' % n)
+        if not os.path.exists(np):
+            np = os.path.join(out, 'notes%s.txt' % n)
         if os.path.exists(np):
             note = open(np).read()
         checks = {}
